@@ -10,5 +10,16 @@ claim(
     "Does not decide behaviour under interruption between `add` returning and the try being entered.",
     TB + "; cleanup statements in the finally block are assumed not to raise (they run with check=False)",
 )
-for _p in [f"C{n:02d}" for n in range(1, 20)]:
+claim(
+    "C15",
+    "effect ownership (sink inventory), guarded call-graph reachability with constant propagation of the inspection flags, "
+    "typestate of sys.path on the CFG, handler tables (exception discipline)",
+    "On every call path of the current source: with allow_inspection=force_inspection=False no path from the loader entry "
+    "points reaches dynamic_import, the inspector or any code-executing call; such calls exist only at two tabled owner sites; "
+    "every compile() is AST-only; sys.path is replaced only inside a save/replace/restore context manager whose restore runs on "
+    "every exit; failure types are mapped as documented. This is the whole mechanism behind C15, not a sample of loads.",
+    TB + "; extension loading (user-supplied extension modules) is cut from the reachability with the reason tabled in the rule; "
+    "by-name CHA over-approximates callees",
+)
+for _p in [f"C{n:02d}" for n in range(1, 20) if f"C{n:02d}" not in CLAIMED]:
     NOT_YET[_p] = "check under construction in this round (static rules designed in DESIGN.md section 3; not yet registered)"
